@@ -178,7 +178,7 @@ def _scrollbar_roles(p, rn, du):
 
 def rule_scrollbar_parts(ctx: Ctx) -> RuleResult:
     p = ctx.p
-    rr = RuleResult("PAIR", "C20.3", "ScrollBar: bottom part = maxrow - thumb_height - top_height; bar width = maxcol - child width; child drawn at (child width, maxrow)", floor=3)
+    rr = RuleResult("PAIR", "C20.3", "ScrollBar: bottom part = maxrow - thumb_height - top_height; bar width = maxcol - child width; child drawn at (child width, maxrow); the position cannot exceed its maximum", floor=7)
     rn = p.func(f"{SB}.render")
     du = DefUse(rn)
     R = _scrollbar_roles(p, rn, du)
@@ -214,6 +214,31 @@ def rule_scrollbar_parts(ctx: Ctx) -> RuleResult:
 
             if not any(dn not in ExcEngine._reach_without_edge(cfg, t, "T") for t in room_tests):
                 rr.add(finding("PAIR", rn, dn.stmt, f"`{norm(dn.stmt, 40)}` gives the top part a fixed height without testing that the thumb leaves room (maxrow > thumb height): when the thumb fills the bar (a one-row view) the bottom part becomes negative and the bar is taller than the view", construct="top part constant without room test"))
+    # the position never exceeds its maximum: top = int(room * pos / max(1, posmax)) stays within the room only if
+    # pos <= posmax.  Where the total is an *estimate* the function corrects itself (relative mode, __length_hint__),
+    # posmax = total - visible must be computed from a total that was raised to at least pos + visible.
+    ratio = None
+    for n in rn.own_nodes():
+        if isinstance(n, ast.BinOp) and isinstance(n.op, ast.Div) and isinstance(n.right, ast.Call) and callee_name(n.right) == "max" and len(n.right.args) == 2:
+            num = n.left.args[0] if isinstance(n.left, ast.Call) and callee_name(n.left) == "float" and n.left.args else n.left
+            den = [a for a in n.right.args if isinstance(a, ast.Name)]
+            if isinstance(num, ast.Name) and len(den) == 1:
+                ratio = (num.id, den[0].id)
+    if ratio is None:
+        raise AnalysisError("ScrollBar.render: the position ratio pos / max(1, posmax) was not found")
+    P, PM = ratio
+    for dn, v, how in du.defs.get(PM, []):
+        if not (isinstance(v, ast.BinOp) and isinstance(v.op, ast.Sub) and isinstance(v.left, ast.Name)):
+            continue
+        A, B = v.left.id, v.right
+        adefs = du.reaching(A, dn)
+        pdefs = du.reaching(P, dn)
+        by_contract = bool(pdefs) and all(isinstance(pv, ast.Call) and callee_name(pv) == "get_scrollpos" for pv, ph, pn in pdefs)
+        want = linear(ast.BinOp(left=ast.Name(id=P, ctx=ast.Load()), op=ast.Add(), right=B))
+        raised = bool(adefs) and all(isinstance(av, ast.Call) and callee_name(av) == "max" and any(linear(a) == want for a in av.args) for av, ah, an in adefs)
+        rr.inst(f"position bound {norm(dn.stmt, 40)}", True, {"posmax": norm(dn.stmt, 50), "total_raised_to_pos_plus_visible": raised, "position_clamped_by_the_scrolled_widget": by_contract})
+        if not (raised or by_contract):
+            rr.add(finding("PAIR", rn, dn.stmt, f"`{norm(dn.stmt, 50)}`: nothing makes `{A}` at least `{P} + {ast.unparse(B)}` (it is corrected to {[norm(av, 50) for av, ah, an in adefs]}), so with an under-estimated length the position exceeds its maximum, the top part outgrows the trough (ratio > 1) and the bar becomes taller than the view", construct=f"{PM}: total not raised to position + visible amount"))
     w = single(R["sb_width"])
     rr.inst("bar width remainder", True)
     from ..rules.geom import fold_subscripts
@@ -473,6 +498,8 @@ def run(ctx: Ctx):
 
 _F = "urwid/widget/scrollable.py"
 MUTANTS = [
+    Mut("scrollbar-estimate-not-raised-to-pos-plus-visible", "urwid/widget/scrollable.py", "ScrollBar.render", "ow_len = max(ow_len, pos + visible_amount)", "ow_len = max(ow_len, visible_amount, pos)", "PAIR|widget.scrollable.ScrollBar.render|posmax"),
+    Mut("twin-scrollbar-estimate-respelled", "urwid/widget/scrollable.py", "ScrollBar.render", "ow_len = max(ow_len, pos + visible_amount)", "ow_len = max(visible_amount + pos, ow_len)", twin=True),
     Mut("first-visible-pos-returns-position", "urwid/widget/listbox.py", "ListBox.get_first_visible_pos", "        over = 0\n        _widget, first_pos = self.body.get_prev(first_pos)", "        if isinstance(first_pos, int):\n            return first_pos\n\n        over = 0\n        _widget, first_pos = self.body.get_prev(first_pos)", "KIND|widget.listbox.ListBox.get_first_visible_pos"),
     Mut("fit-test-rows-only", _F, "Scrollable.render", "        if canv_cols <= maxcol and canv_rows <= maxrow:\n            # Canvas is small enough to fit without trimming: nothing is scrolled out, reset the position", "        if canv_rows <= maxrow:\n            # fits vertically", "GUARD|widget.scrollable.Scrollable.render"),
     Mut("default-store-upper-only", _F, "Scrollable._adjust_trim_top", "            self._trim_top = ensure_bounds(trim_top)\n", "            self._trim_top = min(trim_top, canv_rows - maxrow)\n", "WRITER|widget.scrollable.Scrollable._adjust_trim_top"),
